@@ -13,6 +13,9 @@ if len(sys.argv) > 3 and sys.argv[3] == "psow0":
 else:
     c = sqlite3.connect(path, isolation_level=None)
 c.execute("PRAGMA journal_mode=%s" % mode)
+if "syncoff" in sys.argv[3:]:
+    # no syncs at all: the journal header is written up front with the record count -1 ("derive it from the file size")
+    c.execute("PRAGMA synchronous=OFF")
 c.execute("PRAGMA cache_size=5")          # dirty pages spill into the file before COMMIT
 c.execute("BEGIN")
 c.execute("UPDATE t SET b = 'NEW-' || b")
@@ -132,8 +135,8 @@ def check(run):
     os.makedirs(wd, exist_ok=True)
     open(os.path.join(wd, "writer.py"), "w").write(WRITER)
     dist = {"kill_points": 0, "torn_writes": 0, "benign_journals": 0, "sqlite_reports": {}, "sqlittle": {}, "configs": []}
-    configs = [("DELETE", 512, 300, ()), ("TRUNCATE", 1024, 300, ()), ("PERSIST", 512, 200, ()), ("DELETE", 1024, 200, ("psow0",))] if quick else \
-              [(m, u, r, x) for m in ("DELETE", "TRUNCATE", "PERSIST") for u, r, x in ((512, 400, ()), (1024, 600, ()), (1024, 300, ("psow0",)), (4096, 1500, ()))]
+    configs = [("DELETE", 512, 300, ()), ("TRUNCATE", 1024, 300, ()), ("PERSIST", 512, 200, ()), ("DELETE", 1024, 200, ("psow0",)), ("DELETE", 512, 200, ("syncoff",))] if quick else \
+              [(m, u, r, x) for m in ("DELETE", "TRUNCATE", "PERSIST") for u, r, x in ((512, 400, ()), (1024, 600, ()), (1024, 300, ("psow0",)), (4096, 1500, ()), (1024, 300, ("syncoff",)))]
     for mode, u, nrows, extra in configs:
         base = os.path.join(wd, "base-%s-%d.db" % (mode, u))
         make_base(base, u, nrows)
@@ -196,10 +199,14 @@ def check(run):
                 toks.append("X")
         _, _, mo = hl.ops.run_cmds("c09-phases", [("ph", "crashphases " + " ".join(toks))], sides=("model",))
         dist.setdefault("protocol_order", []).append({"mode": mode, "ops": len(toks), "model_phase": (mo.get("ph") or ["?"])[0]})
-        if (mo.get("ph") or ["?"])[0] != "done":
+        if "syncoff" in extra:
+            # PRAGMA synchronous=OFF is outside the protocol Model/Crash.v describes (no syncs, the journal is hot from its
+            # first write): its kill points are judged by SQLite's own recovery only
+            dist["protocol_order"][-1]["note"] = "synchronous=OFF: not matched against the automaton"
+        elif (mo.get("ph") or ["?"])[0] != "done":
             run.violation("the order of the writer's file operations (%s, page size %d) is not the protocol Model/Crash.v assumes: %s" % (mode, u, (mo.get("ph") or ["?"])[0]),
                           {"no_failing_input_found": True, "broken": "hypothesis wf_ops of C09_crash vs the real SQLite writer", "ops": " ".join(toks)[:3000]})
-        dist["configs"].append({"mode": mode, "page_size": u, "rows": nrows, "sector": 4096 if extra else 512, "syscalls": counts})
+        dist["configs"].append({"mode": mode, "page_size": u, "rows": nrows, "sector": 4096 if "psow0" in extra else 512, "synchronous": "OFF" if "syncoff" in extra else "FULL", "syscalls": counts})
         judge(run, "%s/%d complete transaction" % (mode, u), db, dist, pre, post)
         # kill on entering the k-th call of every kind
         for name, n in counts.items():
